@@ -183,10 +183,10 @@ add("c02_full_custom_0x0_k15", 78, "banded custom(), both sequences empty, all f
 # ---------------------------------------------------------------------------------------------------------------- C04
 add = prop("C04", "c04",
  "Bounded model checking of the real bwt(), less() and Occ::{new,get}: for each listed (length n, sampling rate k, alphabet) ALL byte strings over the alphabet (not only genuine BWTs), ALL rows r and ALL symbols c are covered by one solver query; Occ::get(r,c) must equal the count of c in bytes[0..=r], less[c] the number of symbols smaller than c for every c up to max_symbol+1, bwt[r] the cyclic predecessor of pos[r] for ANY pos array.",
- "Bound: Occ over alphabets of small byte values {1,2,3} (the table holds max_symbol+1 inner Vecs; 68 of them - a DNA alphabet - exhaust memory, measured), n in {4,6,8}, k from 1 to 2n (19 (n,k) pairs); less over {A,C,$}, {A,C,G}+$, {0,1,3} and an alphabet with a symbol above every text symbol, n<=6; bwt definition for n in {1,4,6} with arbitrary position arrays. " + TRUST + "Not decided: Occ with sampling rates above 64 (n >= 66 symbolic bytes: timeout/out of memory) unless the concrete-row instances complete, the '$'-slot special case of Occ::new (needs >= 37 inner Vecs: out of memory), invert_bwt (Alphabet::new over symbolic symbols: out of memory at n=2).",
+ "Bound: Occ over alphabets of small byte values {1,2,3} (the table holds max_symbol+1 inner Vecs; 68 of them - a DNA alphabet - exhaust memory, measured), n in {4,6,8} (quick) and {10,12} (thorough), k from 1 to 2n (22 (n,k) pairs); less over {A,C,$}, {A,C,G}+$, {0,1,3} and an alphabet with a symbol above every text symbol, n<=6; bwt definition for n in {1,4,6} with arbitrary position arrays. " + TRUST + "Not decided: Occ with sampling rates above 64 (n >= 66 symbolic bytes: timeout/out of memory) unless the concrete-row instances complete, the '$'-slot special case of Occ::new (needs >= 37 inner Vecs: out of memory), invert_bwt (Alphabet::new over symbolic symbols: out of memory at n=2).",
  ["bio::data_structures::bwt::{bwt, less, Occ::new, Occ::get}", "bio::utils::prescan", "bytecount::count (scalar path)"],
- "see level_note", "alphabets with large byte values; k > 64; invert_bwt; texts longer than 8", ["Occ/less are checked on arbitrary byte strings over the alphabet, a superset of the BWTs of sentinel-terminated texts"])
-for n, ks in [(4, [1, 2, 3, 4, 5, 8]), (6, [1, 2, 3, 4, 5, 6, 7, 12]), (8, [1, 3, 5, 8, 16])]:
+ "see level_note", "alphabets with large byte values; k > 64; invert_bwt; texts longer than 12", ["Occ/less are checked on arbitrary byte strings over the alphabet, a superset of the BWTs of sentinel-terminated texts"])
+for n, ks in [(4, [1, 2, 3, 4, 5, 8]), (6, [1, 2, 3, 4, 5, 6, 7, 12]), (8, [1, 3, 5, 8, 16]), (10, [3, 7]), (12, [5])]:
     for k in ks:
         add(f"c04_occ_n{n}_k{k}", 55, f"Occ::new/get, all strings of length {n} over {{1,2,3}}, sampling rate k={k}, all rows and symbols", min_covers=2,
             tier="quick" if (n, k) in [(4, 1), (4, 3), (4, 8), (6, 2), (6, 4), (6, 7), (6, 12), (8, 1), (8, 3), (8, 16)] else "thorough")
